@@ -32,6 +32,8 @@ func init() { register("procs", genProcs) }
 var glueFiles = []string{
 	"src/stgutg/ngsetup.go", "src/stgutg/ue.go", "src/stgutg/pdu.go", "src/stgutg/service.go", "src/stgutg/utils.go",
 	"src/tglib/security.go", "src/tglib/packet.go", "src/tglib/decode.go", "src/tglib/ranUe.go",
+	// the KDF front end of the key hierarchy (FC ‖ P0 ‖ L0 … around HMAC-SHA-256): thirty lines between tglib and crypto/hmac
+	"src/free5gclib/UeauCommon/UeauCommon.go",
 }
 
 type alpha struct {
@@ -205,7 +207,7 @@ func genProcs() error {
 		if err != nil {
 			return err
 		}
-		pkg := strings.Split(f, "/")[1]
+		pkg := filepath.Base(filepath.Dir(f))
 		for _, d := range af.Decls {
 			fd, ok := d.(*ast.FuncDecl)
 			if !ok || fd.Body == nil {
